@@ -146,7 +146,7 @@ function runPackageShard (spec, ctx) {
 module.exports = {
   id: 'C15',
   level: 'exploration',
-  rule: 'conservation check per result: metrics.instrumentedPropagation must equal the number of `_ddiast.<dst>(` call sites in the emitted code (census on the acorn AST of the raw output); under DEBUG the per-tag map must equal the partition of those sites by the aligned input operation (+, +=, Tpl, method source name); OFF => 0 and no breakdown; other levels => no breakdown; status/file echo the call. Workload: every permutation (length<=2 quick, <=3 thorough, longer sampled) of 16 statements mixing instrumented, literal-only, disabled, excluded, optional-chain and nested operations, x 8 verbosity spellings, plus corpus/catalogue/random programs. distinct_nontrivial = distinct (input, config) whose output has >= 1 hook site. Package layer: call histories (8-28 calls) through the real main.js on shared CacheRewriter / NonCacheRewriter instances, over paths that share base names and carry byte-identical code, checking that file name and status echo THIS call and that the count equals the hook call sites of the content handed out. Workload additions: corpus files with enabled operations spliced onto randomly chosen expression nodes (25 wrappers x every expression slot; only texts V8 still compiles), the syntax zoo with LF/CRLF/CR line endings, a CRLF slice of the corpus.',
+  rule: 'conservation check per result: metrics.instrumentedPropagation must equal the number of `_ddiast.<dst>(` call sites in the emitted code (census on the acorn AST of the raw output); under DEBUG the per-tag map must equal the partition of those sites by the aligned input operation (+, +=, Tpl, method source name); OFF => 0 and no breakdown; other levels => no breakdown; status/file echo the call. Workload: every permutation (length<=2 quick, <=3 thorough, longer sampled) of 16 statements mixing instrumented, literal-only, disabled, excluded, optional-chain and nested operations, x 8 verbosity spellings (a sixth of them declaring a source map that cannot be loaded, with chaining on or off), plus corpus/catalogue/random programs. distinct_nontrivial = distinct (input, config) whose output has >= 1 hook site. Package layer: call histories (8-28 calls) through the real main.js on shared CacheRewriter / NonCacheRewriter instances, over paths that share base names and carry byte-identical code, checking that file name and status echo THIS call and that the count equals the hook call sites of the content handed out. Workload additions: corpus files with enabled operations spliced onto randomly chosen expression nodes (25 wrappers x every expression slot; only texts V8 still compiles), the syntax zoo with LF/CRLF/CR line endings, a CRLF slice of the corpus.',
   assumptions: ['hook call sites are counted syntactically in the emitted code; the prologue contains none', 'tag attribution needs the erased output to align with the input (C02); unaligned files only get the count check'],
   plan (ctx) {
     const perms = planPerms(ctx)
@@ -164,7 +164,13 @@ module.exports = {
       js = spec.perms.map((idxs, i) => {
         const v = VERBOSITIES[(i + spec.stream + ctx.seed) % VERBOSITIES.length]
         const renamed = (i + ctx.seed) % 3 === 0
-        return { code: permProgram(idxs), file: `/srv/app/perm_${i % 7}.js`, meta: { permKinds: idxs.map(x => POOL[x][0]), sigBase: 'perm' }, config: cfgFor(v, renamed), cfgKey: 'v' + String(v) + renamed, cfgName: `verbosity=${v}${renamed ? ',renamed' : ''}` }
+        // a share of the programs declares a source map that cannot be loaded (missing file, undecodable data URL), with chaining on
+        // or off: whatever the rewriter decides to do with such a file, what it reports must be what it emitted
+        const ref = i % 6 === 5 ? ['\n//# sourceMappingURL=missing-' + i + '.js.map\n', '\n//# sourceMappingURL=data:application/json;base64,@@@@\n', '\n//# sourceMappingURL=/nonexistent/dir/x.map'][i % 3] : ''
+        const chain = ref !== '' && i % 4 !== 1
+        const c = cfgFor(v, renamed)
+        if (chain) c.chainSourceMap = true
+        return { code: permProgram(idxs) + ref, file: `/srv/app/perm_${i % 7}.js`, meta: { permKinds: idxs.map(x => POOL[x][0]), sigBase: 'perm', unloadableMap: ref !== '' }, config: c, cfgKey: 'v' + String(v) + renamed + (chain ? 'C' : ''), cfgName: `verbosity=${v}${renamed ? ',renamed' : ''}${chain ? ',chain' : ''}${ref ? ',unloadable-map-reference' : ''}` }
       })
     } else {
       js = structJobs(spec, ctx).map((j, i) => {
